@@ -428,6 +428,7 @@ class Repo:
             key.update(m.name.encode())
             key.update(repr(sorted((k, sorted(v)) for k, v in normalize.MUTATORS.items())).encode())
             key.update(repr(sorted(normalize.KNOWN_FUNCS)).encode())
+            key.update(repr(sorted((k_, v_) for k_, v_ in normalize.SIGNATURES.items())).encode())
             key.update(repr(sorted((k_, sum(1 for r_ in ast.walk(v_) if isinstance(r_, ast.Return) and isinstance(r_.value, ast.Tuple)),
                                     max([len(r_.value.elts) for r_ in ast.walk(v_) if isinstance(r_, ast.Return) and isinstance(r_.value, ast.Tuple)] or [0]))
                                    for k_, v_ in normalize.ARITY_HELPERS.items())).encode())
